@@ -371,6 +371,12 @@ func c01Run(input string) string {
 			// the outsider builds a fresh ECDH-ES (anoncrypt) JWE for recipient 1 and names the SENDER's key in `skid`
 			m, applied = envForgeSkid(c, parties)
 			changed = true
+		} else if strings.HasPrefix(mut, "forge:") {
+			m, applied = envForgeHand(c, parties, strings.TrimPrefix(mut, "forge:"))
+			changed = true
+		} else if mut == "corecip" {
+			m, applied = envCoRecipient(c, env, parties)
+			changed = true
 		} else {
 			m, applied, changed = envMutate(env, donor, mut, parties)
 		}
@@ -767,8 +773,17 @@ func c02Gen(r *Rng, tier string) []string {
 		cfg := envGenCfg(r)
 		var mut string
 		switch c := r.N(20); {
-		case c < 8:
+		case c < 7:
 			mut = fmt.Sprintf("flip:%s:%d", r.Pick(fields), r.N(1000))
+		case c < 8:
+			// attacker-built envelopes need JWE with a content encryption the toolkit implements
+			kt := r.Pick([]string{"x25519", "p256", "p384", "p521"})
+			kd, en := r.Pick([]string{"aj", "aj", "nj"}), "xc"
+			if kd == "nj" {
+				en = r.Pick([]string{"xc", "gcm"})
+			}
+			cfg = fmt.Sprintf("%s,%s,%s,%d,%s,%s", kd, kt, en, 2+r.N(2), r.Pick([]string{"j", "b40"}), r.Pick([]string{"dk", "dd"}))
+			mut = r.Pick([]string{"forge:apu", "forge:apu+skid", "forge:skid", "corecip", "corecip"})
 		case c < 9:
 			mut = fmt.Sprintf("flip:%s:999", r.Pick(fields)) // last character: base64 trailing bits
 		case c < 10:
@@ -784,7 +799,8 @@ func c02Gen(r *Rng, tier string) []string {
 		case c < 18:
 			mut = fmt.Sprintf("duprec:%d", r.N(3))
 		case c < 19:
-			mut = []string{"swaprec", "reser", "forge:skid", "forge:skid"}[r.N(4)]
+			mut = []string{"swaprec", "reser", "forge:skid", "forge:skid", "forge:apu", "forge:apu+skid", "forge:apu+iss",
+				"corecip", "corecip"}[r.N(9)]
 		default:
 			mut = "unprot:" + r.Pick([]string{"skid", "kid", "alg", "apu"}) + ":@other"
 		}
